@@ -18,7 +18,7 @@ func init() {
 	ev.Register(&ev.Check{
 		ID:             "C03",
 		Level:          "exploration",
-		Rule:           "families, each enumerated completely: (1) ALL ordered pairs of user types from a pool of 10 bodies (integer, ranged integer, string, min-length string, two objects, two arrays, boolean, float) + a derived third type (alias / or) x 15 root constructs (@A, @A|@B, via alias, same type via two paths, {type:\"@A\"}, or-lists with names / {type:\"@A\"} / inline rule-sets (also with nullable next to the type) / JSON kinds) x nullable x 6 positions (root, property, array element, arrays with minItems / maxItems) x ALL documents <= 3 nodes over 6 scalars and keys k,l,p (arrays of <= 3 elements for array positions); (2) allOf: 9 parent/child configurations (depth <= 2, lists, optional keys) x 4 additionalProperties settings x ALL 1024 objects over 5 keys x 3 values; (3) additionalProperties: 12 settings x 60 objects; (4) key shortcuts: 5 key types x required/optional/optional-by-default x 2 layouts x ALL objects with <= 3 members over 6 keys. Oracles: three-valued reference set semantics; differentials verdict(@A|@B) == verdict(@A) or verdict(@B). Non-trivial = distinct (schema, environment, document) with decided reference.",
+		Rule:           "families, each enumerated completely: (1) ALL ordered pairs of user types from a pool of 10 bodies (integer, ranged integer, string, min-length string, two objects, two arrays, boolean, float) + a derived third type (alias / or) x 15 root constructs (@A, @A|@B, via alias, same type via two paths, {type:\"@A\"}, or-lists with names / {type:\"@A\"} / inline rule-sets (also with nullable next to the type) / JSON kinds) x nullable x 6 positions (root, property, array element, arrays with minItems / maxItems) x ALL documents <= 3 nodes over 6 scalars and keys k,l,p (arrays of <= 3 elements for array positions); (2) allOf: 9 parent/child configurations (depth <= 2, lists, optional keys) x 4 additionalProperties settings x ALL 1024 objects over 5 keys x 3 values; (3) additionalProperties: 12 settings x 60 objects; (4) key shortcuts: 5 key types x required/optional/optional-by-default x 2 layouts x ALL objects with <= 3 members over 6 keys, and every ordered pair of key types as TWO shortcuts of one object. Oracles: three-valued reference set semantics; differentials verdict(@A|@B) == verdict(@A) or verdict(@B). Non-trivial = distinct (schema, environment, document) with decided reference.",
 		Run:            run,
 		Replay:         replay,
 		QuickBudget:    80 * time.Second,
@@ -552,6 +552,38 @@ func shortcutFamily(c *enumCtx) {
 					cs := sc.Case{Root: root, Types: []sc.TypeDecl{{Name: "@K", Body: kt}}, Opt: optMode == 2}
 					c.visit(cs, docs, "shortcut")
 					c.Sample("shortcut", cs.Describe())
+				}
+			}
+		}
+	}
+	twoShortcuts(c, keyTypes, docs)
+}
+
+// twoShortcuts: objects with TWO key shortcuts (every ordered pair of key types,
+// values of different kinds), both optional: a key accepted only by the second
+// type must be admitted under the second entry.
+func twoShortcuts(c *enumCtx, keyTypes []*gen.Node, docs []*gen.JV) {
+	for i, k1 := range keyTypes {
+		for j, k2 := range keyTypes {
+			if i == j {
+				continue
+			}
+			for _, optMode := range []int{1, 2} {
+				for _, ap := range []string{"", `"boolean"`} {
+					if !c.Mine() {
+						continue
+					}
+					v1, v2 := gen.Int("1"), gen.Str(`"s"`)
+					if optMode == 1 {
+						v1.Rules = append(v1.Rules, gen.R("optional", "true"))
+						v2.Rules = append(v2.Rules, gen.R("optional", "true"))
+					}
+					root := gen.Obj(gen.PS("@K", v1), gen.PS("@L", v2))
+					if ap != "" {
+						root.Rules = append(root.Rules, gen.R("additionalProperties", ap))
+					}
+					cs := sc.Case{Root: root, Types: []sc.TypeDecl{{Name: "@K", Body: k1}, {Name: "@L", Body: k2}}, Opt: optMode == 2}
+					c.visit(cs, docs, "two-shortcuts")
 				}
 			}
 		}
